@@ -3165,7 +3165,18 @@ def _point_ops(fn):
     return out
 
 
-def point_ops(r: R, chk, quals: List[str], control: str = "curves.BaseCurve.__eq__", rule="POINT-OPS", floor: int = 1):
+_POINT_OPS_CONTROL = """
+def control(self, other):
+    points = tuple(self.ctrlpoints)
+    diffs = [points[i + 1] - points[i] for i in range(3)]
+    halves = [point / 2 for point in self.ctrlpoints]
+    for poi, qoi in zip(self.ctrlpoints, other.ctrlpoints):
+        diffs.append(-poi)
+    return [2 * point + point for point in points]
+"""
+
+
+def point_ops(r: R, chk, quals: List[str], rule="POINT-OPS", floor: int = 1):
     """The library promises that a control point only needs `scalar * point` and `point + point` (tests/test_customstruc.py, the
     docstring of curves.invert).  The operators of a curve (A - B, A / s, A @ M ...) apply what the caller asked for; everything
     else — evaluation, refinement, derivation — may use nothing but those two.  `points[i + 1] - points[i]` needs a subtraction the
@@ -3179,7 +3190,7 @@ def point_ops(r: R, chk, quals: List[str], control: str = "curves.BaseCurve.__eq
         chk.ob(rule, f"{q}: control points are only scaled from the left and added", ok, loc=f"{fi.module}.py:{(bad[0] if bad else fi.node).lineno}",
                detail="" if ok else f"{q}: `{seg(bad[0], 50)}` applies an operator to a control point that is neither `scalar * point` nor `point + point`: a point type with the library's minimal protocol has no such operator (TypeError), and an unsigned integer array wraps around — the operation fails or returns a wrong curve for control points the library accepts",
                func=q, construct=f"operator on a control point: {seg(bad[0], 40)}" if bad else "")
-    ctl = _point_ops(r.prog.func(control).node) if r.has(control) else []
-    chk.floor(rule, f"positive control: operators on points recognised in {control}", len(ctl), 1)
+    ctl = _point_ops(ast.parse(_POINT_OPS_CONTROL).body[0])
+    chk.ob(rule, f"positive control of the scanner ({len(ctl)} of 3 operators on points recognised)", len(ctl) == 3, loc="", detail="" if len(ctl) == 3 else "the positive control of the rule is not recognised any more")
     chk.floor(rule, "functions examined", n, floor)
     return n
